@@ -91,7 +91,7 @@ def property_env_oracle(env, H, rate):
 def run(ctx):
     rng = ctx.rng.fork("C12")
     q = ctx.quick
-    nrec = 8 if q else 100
+    nrec = 8 if q else 240
     kinds = ["national", "unknown-org", "canada", "bad-issue", "long-valid", "today", "unknown-evt", "plain"]
     ok_env, ok_audio, children, runs, samples, kdist = 0, 0, 0, 0, [], {}
     with tempfile.TemporaryDirectory(prefix="c12_") as td:
